@@ -595,3 +595,110 @@ Proof.
   - (* RST: CLOSED *)
     exfalso. inversion H3; subst p3; clear H3. inversion H; subst s'. sproj in Hst'. discriminate.
 Qed.
+
+(* ---------------------------------------------------------------------------------------- *)
+(* an acknowledgement of new data IS accepted                                                *)
+(* ---------------------------------------------------------------------------------------- *)
+Lemma in_window_empty_sq : forall b W,
+  0 <= W <= 2 ^ 30 ->
+  fst (tcp_segment_in_window (sq (b + 0)) (sq (b + W)) (sq (b + 0)) (sq (b + 0))) = true.
+Proof.
+  intros b W HW. change (2 ^ 30) with 1073741824 in HW. unfold tcp_segment_in_window.
+  rewrite seq_subn_sq. replace (b + 0 - 1) with (b + (0 - 1)) by lia.
+  rewrite Z.eqb_refl.
+  rewrite (sq_eqb b 0 (0 - 1)) by (change (2 ^ 32) with 4294967296; lia).
+  rewrite (sq_eqb b 0 W) by (change (2 ^ 32) with 4294967296; lia).
+  change (0 =? 0 - 1) with false. cbn [andb].
+  destruct (Z.eqb_spec 0 W) as [E | E]; cbn [andb fst]; [reflexivity|].
+  rewrite (seq_le_sq b 0 0), (seq_lt_sq b 0 W) by (change (2 ^ 31) with 2147483648; lia).
+  destruct (Z.leb_spec 0 0); [|lia]. destruct (Z.ltb_spec 0 W); [|lia]. reflexivity.
+Qed.
+
+Lemma ack_check_in_range : forall cx s ip r d,
+  s_state s = Established -> r_control r = CNone ->
+  u32 (s_local_seq_no s) -> 0 <= d <= rb_len (s_tx_buffer s) -> rb_len (s_tx_buffer s) < 2 ^ 30 ->
+  r_ack_number r = Some (sq (s_local_seq_no s + d)) ->
+  tcp_process_ack_check cx s ip r = Ok (Cont 116 tt).
+Proof.
+  intros cx s ip r d Hst Hc Hu Hd Hl Ha. unfold tcp_process_ack_check. rewrite Hst, Hc, Ha.
+  unfold tcp_sent_syn, tcp_sent_fin. rewrite Hst. cbn [b2z Z.add].
+  rewrite (seq_add_zero _ Hu). change (0 + 0) with 0. rewrite Z.add_0_r.
+  change (2 ^ 30) with 1073741824 in Hl.
+  set (u := s_local_seq_no s) in *.
+  assert (E1 : seq_lt (sq (u + d)) u = false).
+  { rewrite (u32_sq_self u Hu) at 2. rewrite seq_lt_sq by (change (2 ^ 31) with 2147483648; lia). lia. }
+  assert (E2 : seq_gt (sq (u + d)) (seq_add u (rb_len (s_tx_buffer s))) = false).
+  { rewrite seq_add_raw. rewrite seq_gt_sq by (change (2 ^ 31) with 2147483648; lia). lia. }
+  rewrite E1, E2. reflexivity.
+Qed.
+
+(* SENDER PROGRESS STEP.  An ESTABLISHED socket processes an empty segment that sits exactly at
+   its RCV.NXT and acknowledges d > 0 octets of its queue: it is accepted, SND.UNA advances, the
+   acknowledged octets leave the queue. *)
+Theorem process_ack_advances : forall cx s ip r s' reply tags d W,
+  ctx_ok cx -> seg_ok r -> tcp_live_inv s -> s_state s = Established ->
+  r_control r = CNone -> r_payload r = [] ->
+  r_seq_number r = tcp_window_start s ->
+  tcp_window_end s = seq_norm (tcp_window_start s + W) -> 0 <= W <= 2 ^ 30 ->
+  r_ack_number r = Some (sq (s_local_seq_no s + d)) ->
+  0 < d <= rb_len (s_tx_buffer s) -> rb_len (s_tx_buffer s) < 2 ^ 30 ->
+  tcp_process cx s ip r = Ok (s', reply, tags) ->
+  rb_len (s_tx_buffer s') = rb_len (s_tx_buffer s) - d.
+Proof.
+  intros cx s ip r s' reply tags d W Hcx Hseg I Hst Hc Hp Hsq Hwe HW Hack Hd Hl H.
+  unfold tcp_process in H.
+  destruct (negb (tcp_accepts s ip r)); [discriminate|].
+  rewrite (ack_check_in_range cx s ip r d Hst Hc (li_una s I) ltac:(lia) Hl Hack) in H. cbn [obind] in H.
+  obind_inv H. rename a into p2. rename E into H2.
+  pose proof (process_window_spec _ _ _ _ _ H2 I) as P2.
+  destruct p2 as [t2 ((s2, payload), off)|t2 s2r rep2].
+  2:{ (* the segment is in the window *)
+      exfalso. unfold tcp_process_window in H2. rewrite Hst in H2. rewrite Hsq, Hwe, Hp in H2.
+      change (l_len []) with 0 in H2.
+      assert (Hws : tcp_window_start s = sq (tcp_window_start s + 0)).
+      { rewrite Z.add_0_r. unfold tcp_window_start. rewrite seq_add_raw. unfold sq.
+        rewrite Z.mod_mod by (change (2 ^ 32) with 4294967296; lia). reflexivity. }
+      pose proof (in_window_empty_sq (tcp_window_start s) W HW) as Hin.
+      rewrite <- Hws in Hin.
+      assert (Hz : seq_add (tcp_window_start s) 0 = tcp_window_start s).
+      { rewrite seq_add_raw. symmetry. exact Hws. }
+      rewrite Hz in H2. change (seq_norm (tcp_window_start s + W)) with (sq (tcp_window_start s + W)) in H2.
+      destruct (tcp_segment_in_window _ _ _ _) as (inw, tg). cbn [fst] in Hin. subst inw.
+      destruct (negb (seq_le _ _)); [discriminate|].
+      repeat match type of H2 with
+             | (do _ <- ?m; _) = _ => destruct m; cbn [obind] in H2; try discriminate
+             end. }
+  pose proof (inv_core_eq _ _ P2 I) as I2.
+  pose proof P2 as (C1 & C2 & C3 & C4 & C5 & C6 & C7 & C8 & C9 & C10 & C11).
+  obind_inv H. destruct a as ((al, aof), aall). rename E into Hal.
+  assert (Hnr : r_control r <> CRst) by (rewrite Hc; discriminate).
+  assert (Hst2 : s_state s2 = Established) by congruence.
+  destruct (ack_len_established s2 r al aof aall d Hst2 ltac:(rewrite C5; apply (li_una s I))
+              ltac:(change (2 ^ 31) with 2147483648; change (2 ^ 30) with 1073741824 in Hl; lia)
+              ltac:(rewrite C5; exact Hack) Hnr Hal) as (-> & Ed).
+  subst al.
+  assert (Hq : tcp_process_quash s2 r = CNone) by (unfold tcp_process_quash; rewrite Hc; reflexivity).
+  rewrite Hq in H. unfold tcp_process_transition in H. rewrite Hst2 in H. cbn [obind] in H.
+  pose proof (inv_weak _ I2) as W3.
+  obind_inv H. destruct a as (s4, wu). rename E into H4.
+  destruct (update_remote_spec _ _ _ _ _ _ H4 W3 Hseg) as (W4 & S4 & T4 & U4 & N4 & _ & L4).
+  obind_inv H. destruct a as (s5, t5). rename E into H5.
+  destruct (dup_ack_spec _ _ _ _ _ _ _ H5 W4 Hseg) as (W5 & S5 & B5 & _).
+  set (q5 := match r_timestamp r with
+             | Some (tsval, _) => upd_last_remote_tsval s5 tsval
+             | None => s5
+             end) in *.
+  assert (D52 : s_tx_buffer q5 = s_tx_buffer s5)
+    by (unfold q5; destruct (r_timestamp r) as [(tv, te)|]; sproj; auto).
+  clearbody q5.
+  pose proof (timers_spec cx q5 d aall) as P6.
+  destruct (tcp_process_timers cx q5 d aall) as (s6, t6). cbn [fst] in P6.
+  destruct P6 as ((_ & _ & F3 & _) & _).
+  pose proof (zwp_spec cx s6 d) as P7.
+  destruct (tcp_process_zwp cx s6 d) as (s7, t7). cbn [fst] in P7.
+  destruct P7 as ((_ & _ & G3 & _) & _).
+  obind_inv H. destruct a as ((s8, rep8), t8). rename E into H8.
+  destruct (payload_core _ _ _ _ _ _ _ _ _ H8) as (_ & _ & _ & P4 & _).
+  inversion H; subst s' reply tags; clear H.
+  rewrite P4, G3, F3, D52, B5, L4, C4. destruct (Z.gtb_spec d 0); lia.
+Qed.
